@@ -31,6 +31,7 @@ struct RcvState {
   const char* props = "C01";
   std::string name = "receiver";
   void signal(char h) {
+    VMC_TSAN_REL(&::vmc::g_wait_tok);
     ++count; how = h; thread = vmcrt::self(); when = vmcrt::now_ns(); signalled_in_start = in_start;
     if (count > 1) vmcrt::fail(props, "completed-twice", (name + " received a second completion signal").c_str());
   }
@@ -133,6 +134,8 @@ struct LeafSenderT {
       if (unifex::get_stop_token(r).stop_requested()) s->stop_at_start = true;
       cb.emplace(unifex::get_stop_token(r), Cb{s});
       // publishing `started` is the last action: from here on another thread may complete (and free) the op
+      // (a real leaf would publish with a release store; tell ThreadSanitizer so)
+      VMC_TSAN_REL(s);
       ++s->started;
     }
   };
@@ -145,6 +148,7 @@ using VLeaf = LeafSenderT<>;        // completes with void
 // complete a started leaf: ch in {'V','E','D'}
 inline void complete(LeafState& s, char ch, int v = 0) {
   if (s.started <= s.completed) vmcrt::fail("!", "harness", "complete() on a leaf that is not pending");
+  VMC_TSAN_ACQ(&s);
   s.fire(s.op, ch, v);
 }
 
